@@ -576,12 +576,13 @@ which store the operand's *standardised* values under the receiver's location / 
 `C15.append_counterexample` etc.):
   after any history of taxa operations on a breeding-value matrix every row still carries the taxon it was created
   with and the raw (unscaled) value of every trait of that taxon.
-The partial theorem is for the four operations the class defines itself (`select_taxa`, `delete_taxa`,
-`insert_taxa`, `adjoin_taxa`), which re-standardise.
+The partial theorem is for the operations the class defines itself (`select_taxa`, `delete_taxa`, `insert_taxa`
+with one or with several sorted positions, `adjoin_taxa`), which re-standardise.
 -/
 
 /-- **Breeding-value matrices keep taxa attached to their raw values.**  Start from `from_numpy(cols, taxa)`; after
-    *any* history of select / delete / insert / adjoin (any sizes, NaN entries, constant traits; operands raw arrays or
+    *any* history of select / delete / insert (one position or several) / adjoin (any sizes, NaN entries, constant
+    traits; operands raw arrays or
     other matrices) every row `(taxon, unscale()-value of every trait)` of the result is such a row of the start or of
     an operand.  Composes `C15.history_refines_from_numpy_partial` (the stored matrix is `from_numpy` of the edited
     raw data) with the raw-edit attachment `runRaw_rows`. -/
@@ -611,6 +612,13 @@ example :
     (BVMat.runRaw [.select [1, 0], .adjoin (.nd [[some 7], [some 8]] [9])]
       (([[some 1, some 2], [none, some 4]], [5, 6]) : BVMat.Raw ℚ)).toOption
       = some ([[some 2, some 1, some 7], [some 4, none, some 8]], [6, 5, 9]) := by decide +kernel
+/-- a multi-position insert: one new taxon before row 0 and one before row 2 -/
+example :
+    (BVMat.runRaw [.insertMany [0, 2] (.nd [[some 7, some 9], [some 8, some 10]] [30, 31])]
+      (([[some 1, some 2], [none, some 4]], [5, 6]) : BVMat.Raw ℚ)).toOption
+      = some ([[some 7, some 1, some 2, some 9], [some 8, none, some 4, some 10]], [30, 5, 6, 31]) := by decide +kernel
+example : (BVMat.Op.insertMany [0, 2] (.nd [[some 7, some 9], [some 8, some 10]] [30, 31]) : BVMat.Op ℚ).restandardises
+    = true := rfl
 example : RectRaw (([[some 1, some 2], [none, some 4]], [5, 6]) : BVMat.Raw ℚ) := by
   intro c hc; simp at hc; rcases hc with rfl | rfl <;> rfl
 
